@@ -348,7 +348,7 @@ def load_rdtrajectory(path) :
     script = None if d["script"] is None else rdscript_from_dict(d["script"], base_path=filepath.get_base_path(path))
     system = rdsystem_from_dict(d["system"], base_path=filepath.get_base_path(path))
     data = unitarray_from_dict(d["data"], base_path=filepath.get_base_path(path))
-    t_sample = unitarray_from_dict(d["t_sample"])
+    t_sample = unitarray_from_dict(d["t_sample"], base_path=filepath.get_base_path(path))
     engine_description = d["engine_description"]
     engine_option = d["engine_option"]
     cgmap = d.get("cgmap", None)
